@@ -6,4 +6,696 @@ import Buidl.Proofs.Interp
 namespace Buidl.Interp
 open Buidl Buidl.Script Buidl.Spec
 
+/-! ## consensus side: segments, skipping, framing -/
+
+/-- EvalScript over a segment of the script (no final-stack test) -/
+def runSeg (ctx : Consensus.Ctx) : Consensus.State → List Cmd → Consensus.Res Consensus.State
+  | st, [] => .ok st
+  | st, c :: cs =>
+    match Consensus.step ctx st c with
+    | .ok st' => runSeg ctx st' cs
+    | .fail => .fail
+    | .oversize => .oversize
+    | .unsupported => .unsupported
+
+theorem runFrom_append (ctx : Consensus.Ctx) (p k : List Cmd) (st : Consensus.State) :
+    Consensus.runFrom ctx st (p ++ k) =
+      match runSeg ctx st p with
+      | .ok st' => Consensus.runFrom ctx st' k
+      | .fail => .reject
+      | .oversize => .oversize
+      | .unsupported => .unsupported := by
+  induction p generalizing st with
+  | nil => rfl
+  | cons c cs ih =>
+    simp only [List.cons_append, Consensus.runFrom, runSeg]
+    cases Consensus.step ctx st c with
+    | ok st' => exact ih st'
+    | fail => rfl
+    | oversize => rfl
+    | unsupported => rfl
+
+theorem runSeg_append (ctx : Consensus.Ctx) (p k : List Cmd) (st : Consensus.State) :
+    runSeg ctx st (p ++ k) =
+      match runSeg ctx st p with
+      | .ok st' => runSeg ctx st' k
+      | .fail => .fail
+      | .oversize => .oversize
+      | .unsupported => .unsupported := by
+  induction p generalizing st with
+  | nil => rfl
+  | cons c cs ih =>
+    simp only [List.cons_append, runSeg]
+    cases Consensus.step ctx st c with
+    | ok st' => exact ih st'
+    | fail => rfl
+    | oversize => rfl
+    | unsupported => rfl
+
+/-- opcodes that may occur between the conditionals of a properly nested program: the flow-free
+    subset (`opPairs`) and the two alt-stack opcodes -/
+def baseOp (c : Nat) : Bool := opPairs.any (fun p => p.1 == c) || c == 107 || c == 108
+
+def baseCmd : Cmd → Bool
+  | .push b => plainPush b
+  | .op c => baseOp c
+
+theorem baseOp_facts_pairs : ∀ p ∈ opPairs, ¬ (99 ≤ p.1 ∧ p.1 ≤ 104) := by decide
+
+theorem baseOp_facts {c : Nat} (h : baseOp c = true) :
+    Consensus.unsupportedOp c = false ∧ Consensus.disabledOp c = false ∧ ¬ (99 ≤ c ∧ c ≤ 104) ∧
+    slOp c = true := by
+  simp only [baseOp, Bool.or_eq_true, List.any_eq_true, beq_iff_eq] at h
+  rcases h with (⟨p, hp, rfl⟩ | h) | h
+  · obtain ⟨_, _, hun, hdis, _⟩ := table_pairs p hp
+    refine ⟨hun, hdis, baseOp_facts_pairs p hp, ?_⟩
+    simp only [slOp, Bool.or_eq_true, List.any_eq_true, beq_iff_eq]
+    exact Or.inl (Or.inl (Or.inl (Or.inl ⟨p, hp, rfl⟩)))
+  · subst h; decide
+  · subst h; decide
+
+theorem baseCmd_slCmd {c : Cmd} (h : baseCmd c = true) : slCmd c = true := by
+  cases c with
+  | push b => exact h
+  | op k => exact (baseOp_facts h).2.2.2
+
+/-- a base command in a branch that is not executed changes nothing -/
+theorem step_skip (ctx : Consensus.Ctx) (st : Consensus.State) (c : Cmd) (hc : baseCmd c = true)
+    (hx : Consensus.fExec st = false) : Consensus.step ctx st c = .ok st := by
+  cases c with
+  | push b => simp [Consensus.step, hx]
+  | op k =>
+    obtain ⟨hun, hdis, hr, _⟩ := baseOp_facts hc
+    have : (decide (99 ≤ k) && decide (k ≤ 104)) = false := by
+      simp only [Bool.and_eq_false_imp, decide_eq_true_eq, decide_eq_false_iff_not]
+      intro h1 h2; exact hr ⟨h1, h2⟩
+    simp [Consensus.step, hun, hdis, hx, this]
+
+/-- an executed base command does not look at the exec stack beyond `fExec` -/
+theorem step_frame (ctx : Consensus.Ctx) (s a : Stack) (E : List Bool) (c : Cmd) (hc : baseCmd c = true)
+    (hx : E.all id = true) :
+    Consensus.step ctx ⟨s, a, E⟩ c =
+      (Consensus.step ctx ⟨s, a, []⟩ c).map fun st => { st with exec := E } := by
+  cases c with
+  | push b => simp [Consensus.step, Consensus.fExec, hx, Consensus.Res.map]
+  | op k =>
+    obtain ⟨hun, hdis, hr, _⟩ := baseOp_facts hc
+    have h99 : k ≠ 99 := by omega
+    have h100 : k ≠ 100 := by omega
+    have h103 : k ≠ 103 := by omega
+    have h104 : k ≠ 104 := by omega
+    simp only [Consensus.step, hun, hdis, Consensus.fExec, hx, List.all_nil, Bool.true_or,
+      Bool.false_eq_true, if_false, if_true, h99, h100, h103, h104, or_self, Bool.not_true]
+    cases Consensus.execOp ctx k s a <;> rfl
+
+def IFop (neg : Bool) : Cmd := .op (if neg then 100 else 99)
+abbrev ELSE : Cmd := .op 103
+abbrev ENDIF : Cmd := .op 104
+
+/-- properly nested programs: base commands and IF/NOTIF … [ELSE …] ENDIF blocks with at most one
+    ELSE per IF (N07e) -/
+inductive Bal : List Cmd → Prop where
+  | nil : Bal []
+  | cmd (c : Cmd) (t : List Cmd) (hc : baseCmd c = true) : Bal t → Bal (c :: t)
+  | ifThen (neg : Bool) (a t : List Cmd) : Bal a → Bal t → Bal (IFop neg :: (a ++ ENDIF :: t))
+  | ifElse (neg : Bool) (a b t : List Cmd) : Bal a → Bal b → Bal t →
+      Bal (IFop neg :: (a ++ ELSE :: (b ++ ENDIF :: t)))
+
+theorem step_if_skip (ctx : Consensus.Ctx) (s a : Stack) (E : List Bool) (neg : Bool)
+    (hx : E.all id = false) :
+    Consensus.step ctx ⟨s, a, E⟩ (IFop neg) = .ok ⟨s, a, false :: E⟩ := by
+  cases neg <;> simp [IFop, Consensus.step, Consensus.unsupportedOp, Consensus.disabledOp, Consensus.fExec, hx]
+
+theorem step_if_exec (ctx : Consensus.Ctx) (s a : Stack) (E : List Bool) (neg : Bool)
+    (hx : E.all id = true) :
+    Consensus.step ctx ⟨s, a, E⟩ (IFop neg) =
+      match s with
+      | [] => .fail
+      | v :: s' => .ok ⟨s', a, (Consensus.castToBool v != neg) :: E⟩ := by
+  cases neg <;> cases s <;>
+    simp [IFop, Consensus.step, Consensus.unsupportedOp, Consensus.disabledOp, Consensus.fExec, hx]
+
+theorem step_else (ctx : Consensus.Ctx) (s a : Stack) (e : Bool) (E : List Bool) :
+    Consensus.step ctx ⟨s, a, e :: E⟩ ELSE = .ok ⟨s, a, (!e) :: E⟩ := by
+  simp [Consensus.step, Consensus.unsupportedOp, Consensus.disabledOp]
+
+theorem step_endif (ctx : Consensus.Ctx) (s a : Stack) (e : Bool) (E : List Bool) :
+    Consensus.step ctx ⟨s, a, e :: E⟩ ENDIF = .ok ⟨s, a, E⟩ := by
+  simp [Consensus.step, Consensus.unsupportedOp, Consensus.disabledOp]
+
+/-- a properly nested segment in a branch that is not executed is skipped without any effect -/
+theorem runSeg_skip (ctx : Consensus.Ctx) {p : List Cmd} (hb : Bal p) :
+    ∀ (s a : Stack) (E : List Bool), E.all id = false → runSeg ctx ⟨s, a, E⟩ p = .ok ⟨s, a, E⟩ := by
+  induction hb with
+  | nil => intro s a E _; rfl
+  | cmd c t hc _ ih =>
+    intro s a E hx
+    simp only [runSeg, step_skip ctx ⟨s, a, E⟩ c hc hx]
+    exact ih s a E hx
+  | ifThen neg a' t _ _ iha iht =>
+    intro s a E hx
+    have hx' : (false :: E).all id = false := by simp
+    simp only [runSeg, step_if_skip ctx s a E neg hx, runSeg_append, iha s a (false :: E) hx', step_endif]
+    exact iht s a E hx
+  | ifElse neg a' b t _ _ _ iha ihb iht =>
+    intro s a E hx
+    have hx' : (false :: E).all id = false := by simp
+    have hx'' : ((!false) :: E).all id = false := by simpa using hx
+    simp only [runSeg, step_if_skip ctx s a E neg hx, runSeg_append, iha s a (false :: E) hx', step_else,
+      ihb s a (_ :: E) hx'', step_endif]
+    exact iht s a E hx
+def mkSt (E : List Bool) (p : Stack × Stack) : Consensus.State := ⟨p.1, p.2, E⟩
+
+/-- stack-level effect of an executed base command -/
+def baseStep (ctx : Consensus.Ctx) (s a : Stack) : Cmd → Consensus.Res (Stack × Stack)
+  | .push b => .ok (b :: s, a)
+  | .op k => Consensus.execOp ctx k s a
+
+theorem step_base (ctx : Consensus.Ctx) (s a : Stack) (E : List Bool) (c : Cmd) (hc : baseCmd c = true)
+    (hx : E.all id = true) :
+    Consensus.step ctx ⟨s, a, E⟩ c = (baseStep ctx s a c).map (mkSt E) := by
+  rw [step_frame ctx s a E c hc hx]
+  cases c with
+  | push b => simp [Consensus.step, Consensus.fExec, baseStep, Consensus.Res.map, mkSt]
+  | op k =>
+    obtain ⟨hun, hdis, hr, _⟩ := baseOp_facts hc
+    have h99 : k ≠ 99 := by omega
+    have h100 : k ≠ 100 := by omega
+    have h103 : k ≠ 103 := by omega
+    have h104 : k ≠ 104 := by omega
+    simp only [Consensus.step, hun, hdis, Consensus.fExec, List.all_nil, Bool.true_or,
+      Bool.false_eq_true, if_false, if_true, h99, h100, h103, h104, or_self, Bool.not_true, baseStep]
+    cases Consensus.execOp ctx k s a <;> rfl
+
+/-- a properly nested segment executed under an all-true exec stack `E` has one stack-level result,
+    the same for every such `E`, and leaves `E` as it found it -/
+theorem runSeg_frame (ctx : Consensus.Ctx) {p : List Cmd} (hb : Bal p) :
+    ∀ (s a : Stack), ∃ r : Consensus.Res (Stack × Stack),
+      ∀ E : List Bool, E.all id = true → runSeg ctx ⟨s, a, E⟩ p = r.map (mkSt E) := by
+  induction hb with
+  | nil => intro s a; exact ⟨.ok (s, a), fun E _ => rfl⟩
+  | cmd c t hc _ ih =>
+    intro s a
+    cases hr : baseStep ctx s a c with
+    | ok p1 =>
+      obtain ⟨r, h⟩ := ih p1.1 p1.2
+      refine ⟨r, fun E hE => ?_⟩
+      simp only [runSeg, step_base ctx s a E c hc hE, hr, Consensus.Res.map, mkSt]
+      exact h E hE
+    | fail => exact ⟨.fail, fun E hE => by simp only [runSeg, step_base ctx s a E c hc hE, hr]; rfl⟩
+    | oversize => exact ⟨.oversize, fun E hE => by simp only [runSeg, step_base ctx s a E c hc hE, hr]; rfl⟩
+    | unsupported => exact ⟨.unsupported, fun E hE => by simp only [runSeg, step_base ctx s a E c hc hE, hr]; rfl⟩
+  | ifThen neg a' t ha' _ iha iht =>
+    intro s a
+    cases s with
+    | nil => exact ⟨.fail, fun E hE => by simp only [runSeg, step_if_exec ctx [] a E neg hE]; rfl⟩
+    | cons v s' =>
+      cases hf : (Consensus.castToBool v != neg) with
+      | false =>
+        obtain ⟨r, h⟩ := iht s' a
+        refine ⟨r, fun E hE => ?_⟩
+        have hx : (false :: E).all id = false := by simp
+        simp only [runSeg, step_if_exec ctx (v :: s') a E neg hE, hf, runSeg_append,
+          runSeg_skip ctx ha' s' a (false :: E) hx, step_endif]
+        exact h E hE
+      | true =>
+        obtain ⟨r1, h1⟩ := iha s' a
+        cases r1 with
+        | ok p1 =>
+          obtain ⟨r, h⟩ := iht p1.1 p1.2
+          refine ⟨r, fun E hE => ?_⟩
+          have hx : (true :: E).all id = true := by simpa using hE
+          simp only [runSeg, step_if_exec ctx (v :: s') a E neg hE, hf, runSeg_append,
+            h1 (true :: E) hx, Consensus.Res.map, mkSt, step_endif]
+          exact h E hE
+        | fail =>
+          refine ⟨.fail, fun E hE => ?_⟩
+          have hx : (true :: E).all id = true := by simpa using hE
+          simp only [runSeg, step_if_exec ctx (v :: s') a E neg hE, hf, runSeg_append,
+            h1 (true :: E) hx, Consensus.Res.map]
+        | oversize =>
+          refine ⟨.oversize, fun E hE => ?_⟩
+          have hx : (true :: E).all id = true := by simpa using hE
+          simp only [runSeg, step_if_exec ctx (v :: s') a E neg hE, hf, runSeg_append,
+            h1 (true :: E) hx, Consensus.Res.map]
+        | unsupported =>
+          refine ⟨.unsupported, fun E hE => ?_⟩
+          have hx : (true :: E).all id = true := by simpa using hE
+          simp only [runSeg, step_if_exec ctx (v :: s') a E neg hE, hf, runSeg_append,
+            h1 (true :: E) hx, Consensus.Res.map]
+  | ifElse neg a' b t ha' hb' _ iha ihb iht =>
+    intro s a
+    cases s with
+    | nil => exact ⟨.fail, fun E hE => by simp only [runSeg, step_if_exec ctx [] a E neg hE]; rfl⟩
+    | cons v s' =>
+      cases hf : (Consensus.castToBool v != neg) with
+      | false =>
+        -- the IF branch is skipped, the ELSE branch runs
+        obtain ⟨r1, h1⟩ := ihb s' a
+        cases r1 with
+        | ok p1 =>
+          obtain ⟨r, h⟩ := iht p1.1 p1.2
+          refine ⟨r, fun E hE => ?_⟩
+          have hx : (false :: E).all id = false := by simp
+          have hx' : (true :: E).all id = true := by simpa using hE
+          simp only [runSeg, step_if_exec ctx (v :: s') a E neg hE, hf, runSeg_append,
+            runSeg_skip ctx ha' s' a (false :: E) hx, step_else, Bool.not_false, h1 (true :: E) hx',
+            Consensus.Res.map, mkSt, step_endif]
+          exact h E hE
+        | fail =>
+          refine ⟨.fail, fun E hE => ?_⟩
+          have hx : (false :: E).all id = false := by simp
+          have hx' : (true :: E).all id = true := by simpa using hE
+          simp only [runSeg, step_if_exec ctx (v :: s') a E neg hE, hf, runSeg_append,
+            runSeg_skip ctx ha' s' a (false :: E) hx, step_else, Bool.not_false, h1 (true :: E) hx',
+            Consensus.Res.map]
+        | oversize =>
+          refine ⟨.oversize, fun E hE => ?_⟩
+          have hx : (false :: E).all id = false := by simp
+          have hx' : (true :: E).all id = true := by simpa using hE
+          simp only [runSeg, step_if_exec ctx (v :: s') a E neg hE, hf, runSeg_append,
+            runSeg_skip ctx ha' s' a (false :: E) hx, step_else, Bool.not_false, h1 (true :: E) hx',
+            Consensus.Res.map]
+        | unsupported =>
+          refine ⟨.unsupported, fun E hE => ?_⟩
+          have hx : (false :: E).all id = false := by simp
+          have hx' : (true :: E).all id = true := by simpa using hE
+          simp only [runSeg, step_if_exec ctx (v :: s') a E neg hE, hf, runSeg_append,
+            runSeg_skip ctx ha' s' a (false :: E) hx, step_else, Bool.not_false, h1 (true :: E) hx',
+            Consensus.Res.map]
+      | true =>
+        obtain ⟨r1, h1⟩ := iha s' a
+        cases r1 with
+        | ok p1 =>
+          obtain ⟨r, h⟩ := iht p1.1 p1.2
+          refine ⟨r, fun E hE => ?_⟩
+          have hx : (true :: E).all id = true := by simpa using hE
+          have hx' : (false :: E).all id = false := by simp
+          simp only [runSeg, step_if_exec ctx (v :: s') a E neg hE, hf, runSeg_append,
+            h1 (true :: E) hx, Consensus.Res.map, mkSt, step_else, Bool.not_true,
+            runSeg_skip ctx hb' p1.1 p1.2 (false :: E) hx', step_endif]
+          exact h E hE
+        | fail =>
+          refine ⟨.fail, fun E hE => ?_⟩
+          have hx : (true :: E).all id = true := by simpa using hE
+          simp only [runSeg, step_if_exec ctx (v :: s') a E neg hE, hf, runSeg_append,
+            h1 (true :: E) hx, Consensus.Res.map]
+        | oversize =>
+          refine ⟨.oversize, fun E hE => ?_⟩
+          have hx : (true :: E).all id = true := by simpa using hE
+          simp only [runSeg, step_if_exec ctx (v :: s') a E neg hE, hf, runSeg_append,
+            h1 (true :: E) hx, Consensus.Res.map]
+        | unsupported =>
+          refine ⟨.unsupported, fun E hE => ?_⟩
+          have hx : (true :: E).all id = true := by simpa using hE
+          simp only [runSeg, step_if_exec ctx (v :: s') a E neg hE, hf, runSeg_append,
+            h1 (true :: E) hx, Consensus.Res.map]
+/-! ## implementation side: the scan of op_if / op_notif over a properly nested body -/
+
+theorem scanIf_base (c : Cmd) (hc : baseCmd c = true) (items : List Cmd) (need : Nat) (inF : Bool)
+    (t f : List Cmd) :
+    scanIf (c :: items) need inF t f =
+      if inF then scanIf items need inF t (c :: f) else scanIf items need inF (c :: t) f := by
+  cases c with
+  | push b => simp [scanIf]
+  | op k =>
+    obtain ⟨_, _, hr, _⟩ := baseOp_facts hc
+    have h99 : k ≠ 99 := by omega
+    have h100 : k ≠ 100 := by omega
+    have h103 : k ≠ 103 := by omega
+    have h104 : k ≠ 104 := by omega
+    rw [scanIf.eq_6]
+    all_goals (intro h; injection h with h; omega)
+
+theorem scanIf_if (neg : Bool) (items : List Cmd) (need : Nat) (inF : Bool) (t f : List Cmd) :
+    scanIf (IFop neg :: items) need inF t f =
+      if inF then scanIf items (need + 1) inF t (IFop neg :: f)
+      else scanIf items (need + 1) inF (IFop neg :: t) f := by
+  cases neg <;> simp [IFop, scanIf]
+
+theorem scanIf_else_deep (items : List Cmd) (need : Nat) (inF : Bool) (t f : List Cmd) (h : need ≠ 1) :
+    scanIf (ELSE :: items) need inF t f =
+      if inF then scanIf items need inF t (ELSE :: f) else scanIf items need inF (ELSE :: t) f := by
+  simp [scanIf, h]
+
+theorem scanIf_endif_deep (items : List Cmd) (need : Nat) (inF : Bool) (t f : List Cmd) (h : need ≠ 1) :
+    scanIf (ENDIF :: items) need inF t f =
+      if inF then scanIf items (need - 1) inF t (ENDIF :: f)
+      else scanIf items (need - 1) inF (ENDIF :: t) f := by
+  simp [scanIf, h]
+
+/-- scanning over a properly nested segment appends all of it to the current array and leaves the
+    ENDIF counter as it was -/
+theorem scanIf_bal {q : List Cmd} (hq : Bal q) :
+    ∀ (tail : List Cmd) (need : Nat) (inF : Bool) (t f : List Cmd), 1 ≤ need →
+      scanIf (q ++ tail) need inF t f =
+        scanIf tail need inF (if inF then t else q.reverse ++ t) (if inF then q.reverse ++ f else f) := by
+  induction hq with
+  | nil => intro tail need inF t f _; cases inF <;> simp
+  | cmd c q' hc _ ih =>
+    intro tail need inF t f hn
+    rw [List.cons_append, scanIf_base c hc]
+    cases inF
+    · simp only [Bool.false_eq_true, if_false]
+      rw [ih tail need false (c :: t) f hn]
+      simp
+    · simp only [if_true]
+      rw [ih tail need true t (c :: f) hn]
+      simp
+  | ifThen neg a' q' _ _ iha ihq =>
+    intro tail need inF t f hn
+    have hn1 : need + 1 ≠ 1 := by omega
+    rw [List.cons_append, scanIf_if, List.append_assoc, List.cons_append]
+    cases inF
+    · simp only [Bool.false_eq_true, if_false]
+      rw [iha _ (need + 1) false _ f (by omega), scanIf_endif_deep _ _ _ _ _ hn1]
+      simp only [Bool.false_eq_true, if_false, Nat.add_sub_cancel]
+      rw [ihq tail need false _ f hn]
+      simp
+    · simp only [if_true]
+      rw [iha _ (need + 1) true t _ (by omega), scanIf_endif_deep _ _ _ _ _ hn1]
+      simp only [if_true, Nat.add_sub_cancel]
+      rw [ihq tail need true t _ hn]
+      simp
+  | ifElse neg a' b q' _ _ _ iha ihb ihq =>
+    intro tail need inF t f hn
+    have hn1 : need + 1 ≠ 1 := by omega
+    rw [List.cons_append, scanIf_if, List.append_assoc, List.cons_append, List.append_assoc, List.cons_append]
+    cases inF
+    · simp only [Bool.false_eq_true, if_false]
+      rw [iha _ (need + 1) false _ f (by omega), scanIf_else_deep _ _ _ _ _ hn1]
+      simp only [Bool.false_eq_true, if_false]
+      rw [ihb _ (need + 1) false _ f (by omega), scanIf_endif_deep _ _ _ _ _ hn1]
+      simp only [Bool.false_eq_true, if_false, Nat.add_sub_cancel]
+      rw [ihq tail need false _ f hn]
+      simp
+    · simp only [if_true]
+      rw [iha _ (need + 1) true t _ (by omega), scanIf_else_deep _ _ _ _ _ hn1]
+      simp only [if_true]
+      rw [ihb _ (need + 1) true t _ (by omega), scanIf_endif_deep _ _ _ _ _ hn1]
+      simp only [if_true, Nat.add_sub_cancel]
+      rw [ihq tail need true t _ hn]
+      simp
+
+/-- op_if / op_notif find exactly the two branches of a properly nested conditional -/
+theorem scanIf_ifThen {a' : List Cmd} (ha : Bal a') (rest : List Cmd) :
+    scanIf (a' ++ ENDIF :: rest) 1 false [] [] = some (a', [], rest) := by
+  rw [scanIf_bal ha _ 1 false [] [] (Nat.le_refl 1)]
+  simp [scanIf]
+
+theorem scanIf_ifElse {a' b : List Cmd} (ha : Bal a') (hb : Bal b) (rest : List Cmd) :
+    scanIf (a' ++ ELSE :: (b ++ ENDIF :: rest)) 1 false [] [] = some (a', b, rest) := by
+  rw [scanIf_bal ha _ 1 false [] [] (Nat.le_refl 1)]
+  simp only [Bool.false_eq_true, if_false, List.append_nil]
+  have : scanIf (ELSE :: (b ++ ENDIF :: rest)) 1 false a'.reverse [] =
+      scanIf (b ++ ENDIF :: rest) 1 true a'.reverse [] := by simp [scanIf]
+  rw [this, scanIf_bal hb _ 1 true _ [] (Nat.le_refl 1)]
+  simp [scanIf]
+
+/-! ## consensus side: a conditional block runs the chosen branch and nothing else -/
+
+theorem runFrom_cons (ctx : Consensus.Ctx) (st : Consensus.State) (c : Cmd) (cs : List Cmd) :
+    Consensus.runFrom ctx st (c :: cs) =
+      match Consensus.step ctx st c with
+      | .ok st' => Consensus.runFrom ctx st' cs
+      | .fail => .reject
+      | .oversize => .oversize
+      | .unsupported => .unsupported := rfl
+
+theorem runFrom_ifElse (ctx : Consensus.Ctx) {a' b : List Cmd} (ha : Bal a') (hb : Bal b)
+    (neg : Bool) (v : Bytes) (s' a : Stack) (t : List Cmd) :
+    Consensus.runFrom ctx ⟨v :: s', a, []⟩ (IFop neg :: (a' ++ ELSE :: (b ++ ENDIF :: t))) =
+      Consensus.runFrom ctx ⟨s', a, []⟩ ((if (Consensus.castToBool v != neg) then a' else b) ++ t) := by
+  rw [runFrom_cons, step_if_exec ctx (v :: s') a [] neg rfl]
+  simp only
+  cases hf : (Consensus.castToBool v != neg) with
+  | true =>
+    obtain ⟨r, hr⟩ := runSeg_frame ctx ha s' a
+    simp only [if_true, runFrom_append, hr [true] rfl, hr [] rfl]
+    cases r with
+    | ok p1 =>
+      simp only [Consensus.Res.map, mkSt, runFrom_cons, step_else, Bool.not_true, runFrom_append,
+        runSeg_skip ctx hb p1.1 p1.2 [false] rfl, step_endif]
+    | fail => rfl
+    | oversize => rfl
+    | unsupported => rfl
+  | false =>
+    obtain ⟨r, hr⟩ := runSeg_frame ctx hb s' a
+    simp only [Bool.false_eq_true, if_false, runFrom_append, runSeg_skip ctx ha s' a [false] rfl,
+      runFrom_cons, step_else, Bool.not_false, hr [true] rfl, hr [] rfl]
+    cases r with
+    | ok p1 => simp only [Consensus.Res.map, mkSt, runFrom_cons, step_endif]
+    | fail => rfl
+    | oversize => rfl
+    | unsupported => rfl
+
+theorem runFrom_ifThen (ctx : Consensus.Ctx) {a' : List Cmd} (ha : Bal a')
+    (neg : Bool) (v : Bytes) (s' a : Stack) (t : List Cmd) :
+    Consensus.runFrom ctx ⟨v :: s', a, []⟩ (IFop neg :: (a' ++ ENDIF :: t)) =
+      Consensus.runFrom ctx ⟨s', a, []⟩ ((if (Consensus.castToBool v != neg) then a' else []) ++ t) := by
+  rw [runFrom_cons, step_if_exec ctx (v :: s') a [] neg rfl]
+  simp only
+  cases hf : (Consensus.castToBool v != neg) with
+  | true =>
+    obtain ⟨r, hr⟩ := runSeg_frame ctx ha s' a
+    simp only [if_true, runFrom_append, hr [true] rfl, hr [] rfl]
+    cases r with
+    | ok p1 => simp only [Consensus.Res.map, mkSt, runFrom_cons, step_endif]
+    | fail => rfl
+    | oversize => rfl
+    | unsupported => rfl
+  | false =>
+    simp only [Bool.false_eq_true, if_false, runFrom_append, runSeg_skip ctx ha s' a [false] rfl,
+      runFrom_cons, step_endif, List.nil_append]
+
+theorem runFrom_if_empty (ctx : Consensus.Ctx) (neg : Bool) (a : Stack) (cs : List Cmd) :
+    Consensus.runFrom ctx ⟨[], a, []⟩ (IFop neg :: cs) = .reject := by
+  rw [runFrom_cons, step_if_exec ctx [] a [] neg rfl]
+
+theorem Bal.append {x y : List Cmd} (hx : Bal x) (hy : Bal y) : Bal (x ++ y) := by
+  induction hx with
+  | nil => exact hy
+  | cmd c t hc _ ih => exact Bal.cmd c _ hc ih
+  | ifThen neg a' t ha _ _ iht =>
+    have : IFop neg :: (a' ++ ENDIF :: t) ++ y = IFop neg :: (a' ++ ENDIF :: (t ++ y)) := by simp
+    rw [this]; exact Bal.ifThen neg a' _ ha iht
+  | ifElse neg a' b t ha hb _ _ _ iht =>
+    have : IFop neg :: (a' ++ ELSE :: (b ++ ENDIF :: t)) ++ y
+        = IFop neg :: (a' ++ ELSE :: (b ++ ENDIF :: (t ++ y))) := by simp
+    rw [this]; exact Bal.ifElse neg a' b _ ha hb iht
+
+/-- every data push of a properly nested program is a plain one -/
+theorem Bal.pushes {p : List Cmd} (hp : Bal p) : ∀ b, Cmd.push b ∈ p → plainPush b = true := by
+  induction hp with
+  | nil => intro b h; cases h
+  | cmd c t hc _ ih =>
+    intro b h
+    rcases List.mem_cons.mp h with h | h
+    · subst h; exact hc
+    · exact ih b h
+  | ifThen neg a' t _ _ iha iht =>
+    intro b h
+    simp only [List.mem_cons, List.mem_append, IFop] at h
+    rcases h with h | h | h | h
+    · cases neg <;> cases h
+    · exact iha b h
+    · cases h
+    · exact iht b h
+  | ifElse neg a' b' t _ _ _ iha ihb iht =>
+    intro b h
+    simp only [List.mem_cons, List.mem_append, IFop] at h
+    rcases h with h | h | h | h | h | h
+    · cases neg <;> cases h
+    · exact iha b h
+    · cases h
+    · exact ihb b h
+    · cases h
+    · exact iht b h
+
+theorem p2shRule_plain' (env : Env) (st : St) (b : Bytes)
+    (h : ∀ x, Cmd.push x ∈ st.cmds → plainPush x = true) : p2shRule env st b = .ok st := by
+  unfold p2shRule
+  split
+  · rename_i h160 heq
+    have := h h160 (by rw [heq]; simp)
+    simp only [plainPush, Bool.and_eq_true, bne_iff_ne, ne_eq] at this
+    simp [this.1]
+  · rfl
+
+/-! ## one implementation step on a base command -/
+
+/-- the implementation's step on a base command, against the stack-level consensus effect -/
+theorem step_model_base (env : Env) (hlt : env.locktime ≤ 4294967295) (c : Cmd) (hc : baseCmd c = true)
+    (rest : List Cmd) (hrest : ∀ x, Cmd.push x ∈ rest → plainPush x = true) (s a : Stack)
+    (hov : baseStep (ctxOf env) s a c ≠ .oversize)
+    (hve : step Cfg.repaired env ⟨rest, s, a, none, false⟩ c ≠ .error (.err .valueError)) :
+    match step Cfg.repaired env ⟨rest, s, a, none, false⟩ c with
+    | .ok st' => ∃ s' a', st' = ⟨rest, s', a', none, false⟩ ∧ baseStep (ctxOf env) s a c = .ok (s', a')
+    | .error o => baseStep (ctxOf env) s a c = .fail ∧ o.toSpec = some .reject := by
+  cases c with
+  | push b =>
+    have hp : plainPush b = true := hc
+    have h1 : step Cfg.repaired env ⟨rest, s, a, none, false⟩ (.push b)
+        = .ok ⟨rest, b :: s, a, none, false⟩ := by
+      simp only [step]
+      rw [p2shRule_plain' env _ b hrest]
+      exact witnessRules_plain env _ b s rfl hp
+    rw [h1]
+    exact ⟨b :: s, a, rfl, rfl⟩
+  | op k =>
+    have hk : baseOp k = true := hc
+    simp only [baseOp, Bool.or_eq_true, List.any_eq_true, beq_iff_eq] at hk
+    rcases hk with (⟨p, hp, rfl⟩ | h107) | h108
+    · obtain ⟨hr, hconv, _⟩ := table_pairs p hp
+      have hstep : step Cfg.repaired env ⟨rest, s, a, none, false⟩ (.op p.1)
+          = (applyStackFn Cfg.repaired env p.2 s).toOut fun s' => .ok ⟨rest, s', a, none, false⟩ :=
+        stepOp_plain Cfg.repaired env ⟨rest, s, a, none, false⟩ p.1 p.2 hr hconv (table_pairs_plain p hp)
+      rw [hstep] at hve ⊢
+      have hve' : p.1 = 178 → op_checksequenceverify Cfg.repaired env s ≠ .err .valueError := by
+        intro e178 ee
+        have : p.2 = .checksequenceverify := by
+          have h2 : resolve false 178 = some .checksequenceverify := by decide
+          rw [e178] at hr; rw [h2] at hr; exact (Option.some.inj hr).symm
+        apply hve
+        rw [this]
+        show (op_checksequenceverify Cfg.repaired env s).toOut _ = _
+        rw [ee]; rfl
+      have hconf := fn_conforms env p.1 p.2 hp s a hlt hve' hov
+      simp only [baseStep]
+      cases hres : applyStackFn Cfg.repaired env p.2 s with
+      | ok s' =>
+        rw [hres] at hconf
+        exact ⟨s', a, rfl, hconf.symm⟩
+      | fail =>
+        rw [hres] at hconf
+        exact ⟨hconf.symm, rfl⟩
+      | err e =>
+        rw [hres] at hconf
+        exact ⟨hconf.symm, rfl⟩
+    · subst h107
+      have hstep : step Cfg.repaired env ⟨rest, s, a, none, false⟩ (.op 107)
+          = (op_toaltstack s a).toOut fun p => .ok ⟨rest, p.1, p.2, none, false⟩ := rfl
+      have hconf := conf_toaltstack (ctxOf env) s a
+      rw [hstep]
+      simp only [baseStep]
+      cases hres : op_toaltstack s a with
+      | ok p => rw [hres] at hconf; exact ⟨p.1, p.2, rfl, hconf.symm⟩
+      | fail => rw [hres] at hconf; exact ⟨hconf.symm, rfl⟩
+      | err e => rw [hres] at hconf; exact ⟨hconf.symm, rfl⟩
+    · subst h108
+      have hstep : step Cfg.repaired env ⟨rest, s, a, none, false⟩ (.op 108)
+          = (op_fromaltstack s a).toOut fun p => .ok ⟨rest, p.1, p.2, none, false⟩ := rfl
+      have hconf := conf_fromaltstack (ctxOf env) s a
+      rw [hstep]
+      simp only [baseStep]
+      cases hres : op_fromaltstack s a with
+      | ok p => rw [hres] at hconf; exact ⟨p.1, p.2, rfl, hconf.symm⟩
+      | fail => rw [hres] at hconf; exact ⟨hconf.symm, rfl⟩
+      | err e => rw [hres] at hconf; exact ⟨hconf.symm, rfl⟩
+
+theorem step_model_if (env : Env) (neg : Bool) (rest : List Cmd) (s a : Stack) :
+    step Cfg.repaired env ⟨rest, s, a, none, false⟩ (IFop neg)
+      = (op_ifx neg s rest).toOut fun p => .ok ⟨p.2, p.1, a, none, false⟩ := by
+  cases neg <;> rfl
+
+theorem bool_flip (z neg : Bool) : ((!z) != neg) = !(z != neg) := by cases z <;> cases neg <;> rfl
+
+/-! ## properly nested programs: splicing = exec stack -/
+
+theorem run_nested (env : Env) (hlt : env.locktime ≤ 4294967295) :
+    ∀ (n : Nat) (cmds : List Cmd), cmds.length ≤ n → Bal cmds →
+      ∀ (s a : Stack) (fuel : Nat), cmds.length ≤ fuel →
+      run Cfg.repaired env fuel ⟨cmds, s, a, none, false⟩ ≠ .err .valueError →
+      Consensus.runFrom (ctxOf env) ⟨s, a, []⟩ cmds ≠ .oversize →
+      (run Cfg.repaired env fuel ⟨cmds, s, a, none, false⟩).toSpec
+        = some (Consensus.runFrom (ctxOf env) ⟨s, a, []⟩ cmds) := by
+  intro n
+  induction n with
+  | zero =>
+    intro cmds hlen _ s a fuel _ _ _
+    have : cmds = [] := List.eq_nil_of_length_eq_zero (by omega)
+    subst this
+    rw [run_nil _ _ _ _ rfl]
+    exact finalTest_spec _ _ _
+  | succ n ih =>
+    intro cmds hlen hb s a fuel hfuel hve hov
+    cases hb with
+    | nil =>
+      rw [run_nil _ _ _ _ rfl]
+      exact finalTest_spec _ _ _
+    | cmd c t hc hbt =>
+      obtain ⟨f, rfl⟩ : ∃ f, fuel = f + 1 := ⟨fuel - 1, by simp at hfuel; omega⟩
+      have hf : t.length ≤ f := by simp at hfuel; omega
+      have hn : t.length ≤ n := by simp at hlen; omega
+      rw [run_cons _ _ _ _ c t rfl] at hve ⊢
+      rw [runFrom_cons, step_base (ctxOf env) s a [] c hc rfl] at hov ⊢
+      have hov' : baseStep (ctxOf env) s a c ≠ .oversize := by
+        intro e; apply hov; rw [e]; rfl
+      have hve' : step Cfg.repaired env ⟨t, s, a, none, false⟩ c ≠ .error (.err .valueError) := by
+        intro e; apply hve; rw [e]
+      have hm := step_model_base env hlt c hc t hbt.pushes s a hov' hve'
+      cases hst : step Cfg.repaired env ⟨t, s, a, none, false⟩ c with
+      | ok st' =>
+        rw [hst] at hm hve
+        obtain ⟨s', a', rfl, hbs⟩ := hm
+        rw [hbs] at hov ⊢
+        exact ih t hn hbt s' a' f hf hve hov
+      | error o =>
+        rw [hst] at hm
+        obtain ⟨hbs, ho⟩ := hm
+        rw [hbs]
+        exact ho
+    | ifThen neg a' t ha ht =>
+      obtain ⟨f, rfl⟩ : ∃ f, fuel = f + 1 := ⟨fuel - 1, by simp at hfuel; omega⟩
+      rw [run_cons _ _ _ _ (IFop neg) (a' ++ ENDIF :: t) rfl, step_model_if] at hve ⊢
+      cases s with
+      | nil =>
+        rw [runFrom_if_empty]
+        rfl
+      | cons v s' =>
+        rw [runFrom_ifThen (ctxOf env) ha] at hov ⊢
+        have hscan := scanIf_ifThen ha t
+        have hstep : op_ifx neg (v :: s') (a' ++ ENDIF :: t) =
+            .ok (s', (if (Consensus.castToBool v != neg) then a' else []) ++ t) := by
+          simp only [op_ifx, hscan, castToBool_eq]
+          cases (decodeNum v == 0) <;> cases neg <;> rfl
+        rw [hstep] at hve ⊢
+        simp only [Res.toOut] at hve ⊢
+        have hbal : Bal ((if (Consensus.castToBool v != neg) then a' else []) ++ t) := by
+          split
+          · exact ha.append ht
+          · exact Bal.nil.append ht
+        have hl : ((if (Consensus.castToBool v != neg) then a' else []) ++ t).length
+            ≤ (a' ++ ENDIF :: t).length := by
+          split <;> simp <;> omega
+        have hl2 : (a' ++ ENDIF :: t).length ≤ n := by simp at hlen ⊢; omega
+        have hl3 : (a' ++ ENDIF :: t).length ≤ f := by simp at hfuel ⊢; omega
+        exact ih _ (by omega) hbal s' a f (by omega) hve hov
+    | ifElse neg a' b t ha hb' ht =>
+      obtain ⟨f, rfl⟩ : ∃ f, fuel = f + 1 := ⟨fuel - 1, by simp at hfuel; omega⟩
+      rw [run_cons _ _ _ _ (IFop neg) (a' ++ ELSE :: (b ++ ENDIF :: t)) rfl, step_model_if] at hve ⊢
+      cases s with
+      | nil =>
+        rw [runFrom_if_empty]
+        rfl
+      | cons v s' =>
+        rw [runFrom_ifElse (ctxOf env) ha hb'] at hov ⊢
+        have hscan := scanIf_ifElse ha hb' t
+        have hstep : op_ifx neg (v :: s') (a' ++ ELSE :: (b ++ ENDIF :: t)) =
+            .ok (s', (if (Consensus.castToBool v != neg) then a' else b) ++ t) := by
+          simp only [op_ifx, hscan, castToBool_eq]
+          cases (decodeNum v == 0) <;> cases neg <;> rfl
+        rw [hstep] at hve ⊢
+        simp only [Res.toOut] at hve ⊢
+        have hbal : Bal ((if (Consensus.castToBool v != neg) then a' else b) ++ t) := by
+          split
+          · exact ha.append ht
+          · exact hb'.append ht
+        have hl : ((if (Consensus.castToBool v != neg) then a' else b) ++ t).length
+            ≤ (a' ++ ELSE :: (b ++ ENDIF :: t)).length := by
+          split <;> simp <;> omega
+        have hl2 : (a' ++ ELSE :: (b ++ ENDIF :: t)).length ≤ n := by simp at hlen ⊢; omega
+        have hl3 : (a' ++ ELSE :: (b ++ ENDIF :: t)).length ≤ f := by simp at hfuel ⊢; omega
+        exact ih _ (by omega) hbal s' a f (by omega) hve hov
+
 end Buidl.Interp
